@@ -277,7 +277,8 @@ ZAt(c, i) == IF Len(c.z) = 0 THEN NA ELSE c.z[i]
 MemberMatches(m, tsec, zv) ==
     LET tv == IF m.period = "" THEN tsec ELSE PeriodValue(m.period, tsec)
         ts == Span(m.tspan)
-    IN  /\ tv >= ts[1] /\ tv <= ts[2]
+    IN  /\ tsec # NA                     \* an observation without a time (NaT) lies in no time span
+        /\ tv >= ts[1] /\ tv <= ts[2]
         /\ IsGiven(m.zspan) =>
               LET zs == Span(m.zspan) IN Pres(zv) /\ zv >= zs[1] /\ zv <= zs[2]
 
